@@ -19,7 +19,7 @@ def one_property(pid):
     os.makedirs("/tmp/wts", exist_ok=True)
     if not os.path.isdir(wt):
         sh("git -C /repo worktree add --detach %s %s" % (wt, HEAD), "/")
-    for v in ("a", "b"):
+    for v in os.environ.get("SEED_VARIANTS", "a,b").split(","):
         d = "/verif/seeded/%s-%s" % (pid, v)
         if not os.path.exists(d + "/patch.diff"):
             continue
